@@ -21,7 +21,7 @@ EXPLANATION = (
     "their use; (IRP-bracket) every lowering template opens and closes Lua blocks in balance, per repetition class and in "
     "every alternative; (IRP-shortcircuit) in and/or the right operand's code lies inside the if, the left before it, and "
     "`or` tests the negation; (VISIT) the lowering fold lowers every child of every AST node exactly once, in field order; "
-    "(LITERAL) literal emission forms; (START) the call of start is the last thing emitted."
+    "(SCOPE) the resolver closes every scope it opens, so no variable is read outside the Lua block that declares it (the C09 instances); (LITERAL) literal emission forms; (START) the call of start is the last thing emitted."
     " (VISIT-dep, CYCLE) a global's initialiser runs after everything it reads: every read below a top-level statement is a dependency edge and a re-entered node is an error."
     ' (IRP-order late read) no lowering template lets an op read a program variable directly after the code of a child expression has run (`x += f()` snapshots x first).'
 )
@@ -76,6 +76,10 @@ def run(F, rep, tier):
     import c11
     c11.dependency_visit(F, rep)
     c11.cycle(F, rep)
+    # every variable the lowering names is a Lua `local` of the block the resolver's scope corresponds to: a name that
+    # stays resolvable after its block (a scope the resolver forgets to close) is read as nil outside that block
+    import c09
+    c09.scope_rules(F, rep, "SCOPE")
 
 
 def lua_value_text(T, op):
